@@ -524,6 +524,9 @@ func c16Specs() []cfg.Spec {
 				// in force, for references, items and back-links alike), plus a prefix function that must stay unused
 				s.Rich3 = true
 				out = append(out, s)
+				// an explicitly empty static prefix next to a prefix function: the static one is in force everywhere
+				s.Rich3, s.Rich4 = false, true
+				out = append(out, s)
 			}
 		}
 	}
